@@ -3,31 +3,9 @@
    spike times padded with NaN (structural theorem: any number type, axiom-free), and over the reals the
    intervals re-integrate to the spike times. *)
 From Coq Require Import List ZArith Bool Arith Lia Reals Lra.
-From Inferno Require Import Base.Num Base.NumR C20.Model.
+From Inferno Require Import Base.Num Base.NumR C20.Model C20.Spec.
 Import ListNotations.
 Close Scope R_scope.
-
-(* ------------------------------------------------------------------ independent specification *)
-Section Spec.
-Variable N : Num.
-(* indices of the time steps at which the train spikes *)
-Definition spike_indices (tr : list bool) : list nat :=
-  filter (fun i => nth i tr false) (seq 0 (length tr)).
-(* spike times: index * step time *)
-Definition spike_times (dt : T N) (tr : list bool) : list (T N) :=
-  map (fun i => mul N (ofZ N (Z.of_nat i)) dt) (spike_indices tr).
-Fixpoint diffs (l : list (T N)) : list (T N) :=
-  match l with
-  | a :: ((b :: _) as r) => sub N b a :: diffs r
-  | _ => []
-  end.
-Definition count (tr : list bool) : nat := length (spike_indices tr).
-Definition maxcount (trains : list (list bool)) : nat :=
-  fold_right (fun tr m => Nat.max (count tr) m) 0 trains.
-(* one output row: the count-1 intervals, then NaN up to (largest count) - 1 columns *)
-Definition isi_spec_row (dt : T N) (C : nat) (tr : list bool) : list (option (T N)) :=
-  map Some (diffs (spike_times dt tr)) ++ repeat None ((C - 1) - (count tr - 1)).
-End Spec.
 
 (* ------------------------------------------------------------------ list lemmas *)
 Lemma nonzero_from_shift : forall tr i, nonzero_from (S i) tr = map S (nonzero_from i tr).
@@ -246,13 +224,6 @@ Proof. reflexivity. Qed.
 
 (* ------------------------------------------------------------------ re-integration (reals) *)
 Open Scope R_scope.
-
-(* first spike time, then running sums of the intervals *)
-Fixpoint integrate (t0 : R) (ds : list R) : list R :=
-  match ds with
-  | [] => [t0]
-  | d :: r => t0 :: integrate (t0 + d) r
-  end.
 
 Lemma integrate_diffs : forall ts t, integrate t (diffs RN (t :: ts)) = t :: ts.
 Proof.
